@@ -1,12 +1,23 @@
 """Contracts for msmart.cloud and the cloud part of msmart.discover (C19).
 
 What is decided here: token selection (the pair returned belongs to an entry whose udpId equals the requested id; CloudError
-when none does), the retry loop of _post_request (at most `retries` posts, error mapping), API error codes, the udpid
-derivation and the order/endianness/credential hand-over of _authenticate_device.  JSON, HTTP and string library behaviour
-is assumed (uninterpreted deterministic values).  The request signature format is NOT decided (see DESIGN.md 4-C19).
+when none does), the retry loop of _post_request (at most `retries` posts of exactly the request it was given, error mapping),
+API error codes, the udpid derivation and the order/endianness/credential hand-over of _authenticate_device, and the request
+side of the NetHome Plus flow: every posted form (login id, login, token) goes to the documented endpoint, carries the current
+session id, a time stamp and a signature computed over every field that is posted; the login password is derived from the login
+id the server issued; the session id used afterwards is the one the login response carried; a new cloud connection is logged in
+before Discover hands it out.  _api_request, _build_request_body (both levels), _Security.sign and _get_login_id have no contract
+of their own: they are inlined into (and so re-verified with) get_token and login.  JSON, HTTP, urllib and hashlib-over-str
+behaviour is assumed (uninterpreted deterministic functions), so the signature clauses compare the code with a transcription of
+the API convention: they catch dropped / reordered / late-added fields, the wrong key, a stale or missing session id - not a
+wrong convention.  The SmartHome cloud (not used by discovery) is not under contract.
 """
+import hashlib
+from urllib.parse import unquote_plus, urlencode, urlparse
+
 from pyvc.dsl import contract, events, fields, final, implies, lemma, old, same_object, sha256, xor_bytes
 from msmart.cloud import ApiError, BaseCloud, CloudError, NetHomePlusCloud
+from msmart.discover import Discover
 from msmart.lan import Security
 
 CLOUD = "msmart.cloud."
@@ -31,26 +42,43 @@ contract(CLOUD + "BaseCloud._post_request",
          rtype="ext:json",
          let={"R": "retries"},
          raises={CLOUD + "CloudError": {}, "builtins.KeyError": {}, "builtins.ValueError": {}, "builtins.TypeError": {}},
-         ensures={"at_most_the_configured_attempts": "1 <= len(events('http_post')) <= R"},
+         emits={"api_post": "(url, form_data)", "api_result": "result"},
+         ensures={"at_most_the_configured_attempts": "1 <= len(events('http_post')) <= R",
+                  "every_attempt_posts_the_request_it_was_given": "all(p[0] == url and same_object(p[3], form_data) for p in events('http_post'))"},
          loops={"0": {"match": "retries > 0", "ghost_init": {"n": "0"}, "havoc": {"n": "int[0,8]"},
                       "invariant": ["n == R - retries", "retries >= 1"],
                       "ghost_step": {"n": "pre(n) + 1"},
                       "step_hints": {"one_post_per_attempt": "len(events('http_post')) == pre(len(events('http_post'))) + 1"},
                       "variant": "retries"}})
 
-contract(NHP + "._api_request",
-         assumed="signs the request (urllib, hashlib over strings) and posts it under the API lock; string functions are uninterpreted, the raise set is taken from _post_request and _parse_response which are verified",
-         params={"self": "obj:" + NHP, "endpoint": "str", "body": "ext:json"},
-         rtype="ext:json",
-         raises={CLOUD + "CloudError": {}, "builtins.KeyError": {}, "builtins.ValueError": {}, "builtins.TypeError": {}},
-         notes="used at call sites; body: signs the request and posts it under the API lock")
+def nhp_sign(endpoint, form):
+    """the signature a conforming NetHome Plus server recomputes: over every posted field except `sign` itself"""
+    signed = sorted((k, v) for k, v in form.items() if k != "sign")
+    return hashlib.sha256((urlparse(endpoint).path + unquote_plus(urlencode(signed)) + NHP_APP_KEY).encode("ASCII")).hexdigest()
+
+
+def nhp_request_ok(post, base_url, endpoint, session_id):
+    """one posted API request: URL, session id, time stamp and signature over everything that is posted"""
+    url, form = post
+    return (url == base_url + endpoint and "sign" in form and "stamp" in form and "sessionId" in form
+            and form["sessionId"] == session_id and form["appId"] == "1017" and form["sign"] == nhp_sign(endpoint, form))
+
+
+NHP_APP_KEY = "3742e9e5842d4ad59c2db887e12449f9"
+REQ_RAISES = {CLOUD + "CloudError": {"post": {"request_as_the_server_verifies_it": "all(nhp_request_ok(p, self._base_url, EP, old(self._session_id)) for p in events('api_post'))"}},
+              "builtins.KeyError": {}, "builtins.ValueError": {}, "builtins.TypeError": {}}
 
 contract(CLOUD + "BaseCloud.get_token",
          params={"self": "obj:" + NHP, "udpid": "str"},
          rtype="tuple:ext:json,ext:json",
+         let={"EP": "'/v1/iot/secure/getToken'"},
          emits={"token_req": "udpid", "token_res": "result"},
-         raises={CLOUD + "CloudError": {}, "builtins.KeyError": {}, "builtins.ValueError": {}, "builtins.TypeError": {}},
-         ensures={"credentials_of_a_matching_entry_only": "final('token')['udpId'] == udpid and result == (final('token')['token'], final('token')['key'])"},
+         raises=REQ_RAISES,
+         post_let={"P": "events('api_post')"},
+         ensures={"credentials_of_a_matching_entry_only": "final('token')['udpId'] == udpid and result == (final('token')['token'], final('token')['key'])",
+                  "one_request": "len(P) == 1",
+                  "request_as_the_server_verifies_it": "nhp_request_ok(P[0], self._base_url, EP, old(self._session_id))",
+                  "request_names_the_device": "P[0][1]['udpid'] == udpid"},
          local_roles={"token": "loop0.target"},
          loops={"0": {"match": "tokenlist", "havoc": {"token": "opt:ext:json"}}})
 
@@ -58,11 +86,17 @@ contract(CLOUD + "BaseCloud.get_token",
 # ---- C19: a discovered V3 device is authenticated with the credentials registered for its id, in either byte order ----------------
 DISC = "msmart.discover."
 contract(DISC + "Discover._get_cloud",
-         assumed="creates / returns the class-level cloud connection under a class-level lock (shared state the contracts do not describe)",
          params={},
+         globals={DISC + "Discover._cloud": "opt:obj:" + NHP, DISC + "Discover._lock": "ext:lock", DISC + "Discover._region": "str",
+                  DISC + "Discover._account": "opt:str", DISC + "Discover._password": "opt:str",
+                  DISC + "Discover._get_async_client": "opt:ext:client_factory"},
          rtype="obj:" + NHP,
-         raises={CLOUD + "CloudError": {}},
-         notes="used at call sites")
+         assigns={"Discover._cloud": "result"},
+         raises={CLOUD + "CloudError": {}, "builtins.KeyError": {}, "builtins.ValueError": {}, "builtins.TypeError": {}},
+         post_let={"LG": "events('login')"},
+         ensures={"a_new_connection_is_logged_in_before_it_is_handed_out": "implies(old(Discover._cloud) is None, len(LG) == 1 and same_object(LG[0], result))",
+                  "an_existing_connection_is_reused": "implies(old(Discover._cloud) is not None, len(LG) == 0 and same_object(result, old(Discover._cloud)))"},
+         notes="C19: the cloud connection handed to _authenticate_device went through login() (so its session id is the one the server issued)")
 
 contract("msmart.base_device.Device.authenticate#cloud",
          verified_by=["msmart.base_device.Device.authenticate"],
@@ -83,3 +117,34 @@ contract(DISC + "Discover._authenticate_device",
                   "at_most_both_orders": "len(Q) <= 2 and len(A) == len(Q) and len(TR) == len(Q)",
                   "gives_up_only_after_both_orders": "implies(not result, len(Q) == 2)",
                   "credentials_are_the_ones_returned_for_that_id": "all(same_object(a[0], t[0]) and same_object(a[1], t[1]) for a, t in zip(A, TR))"})
+
+
+# ---- C19: request side (signature, login id, password derivation, session id) -----------------------------------------
+# The API convention is transcribed here from the NetHome Plus protocol description (the same convention the vendor app
+# follows): sign = sha256hex(path(endpoint) + unquote_plus(urlencode(sorted(fields))) + APP_KEY) over every field of the
+# posted form except `sign` itself; password = sha256hex(loginId + sha256hex(password) + APP_KEY).  urllib / hashlib over
+# str are uninterpreted deterministic functions, so these clauses catch dropped or reordered fields, a signature computed
+# before all fields are present, the wrong key, a missing or stale session id - not a wrong convention.
+contract(NHP + "._Security.encrypt_password#derivation",
+         params={"self": "obj:" + NHP + "._Security", "login_id": "str", "password": "str"},
+         returns="hashlib.sha256((login_id + hashlib.sha256(password.encode('ASCII')).hexdigest() + '3742e9e5842d4ad59c2db887e12449f9').encode('ASCII')).hexdigest()",
+         raises={"builtins.UnicodeEncodeError": {}})
+
+
+def nhp_password(login_id, password):
+    """the login password a conforming server recomputes from its stored password hash"""
+    return hashlib.sha256((login_id + hashlib.sha256(password.encode("ASCII")).hexdigest() + NHP_APP_KEY).encode("ASCII")).hexdigest()
+
+
+contract(NHP + ".login",
+         params={"self": "obj:" + NHP, "force": "bool"},
+         raises={CLOUD + "CloudError": {}, "builtins.KeyError": {}, "builtins.ValueError": {}, "builtins.TypeError": {}},
+         modifies=["self._login_id", "self._session", "self._session_id"],
+         emits={"login": "self"},
+         post_let={"P": "events('api_post')", "SID": "old(self._session_id)"},
+         ensures={"session_id_changes_only_by_a_login": "implies(len(P) == 0, self._session_id == SID)",
+                  "login_id_requests_as_the_server_verifies_them": "all(nhp_request_ok(p, self._base_url, '/v1/user/login/id/get', SID) and p[1]['loginAccount'] == self._account for p in P[:-1])",
+                  "login_request_as_the_server_verifies_it": "implies(len(P) >= 1, nhp_request_ok(P[-1], self._base_url, '/v1/user/login', SID) and P[-1][1]['loginAccount'] == self._account)",
+                  "password_is_derived_from_the_login_id": "implies(len(P) >= 1, P[-1][1]['password'] == nhp_password(self._login_id, self._password))",
+                  "login_id_is_the_one_the_server_issued": "implies(len(P) >= 2, same_object(self._login_id, events('api_result')[-2]['loginId']))",
+                  "session_id_is_the_one_the_server_issued": "implies(len(P) >= 1, same_object(self._session, events('api_result')[-1]) and same_object(self._session_id, self._session['sessionId']))"})
